@@ -121,6 +121,13 @@ def rule_operators(ctx):
             rets = [o for o in outs if o.kind == "return"]
             ok = len(rets) == 1 and isinstance(rets[0].value, ObjV) and rets[0].value.cls == cls
             ctx.check("C01.3", ok, m, rets[0].node if rets else m.node, f"{cls}.{meth} [raw operand] result class", "raw operand wrapped by the receiver's class", "a raw (scalar/array) operand does not yield an object of the receiver's class")
+            if ok:
+                # the raw operand enters the arithmetic with its own value (no cast to the receiver's element type)
+                sig = rets[0].value.fields.get("signal")
+                a_, b_ = S("self.signal"), S("other")
+                want = {"__add__": a_ + b_, "__radd__": a_ + b_, "__sub__": a_ - b_, "__rsub__": b_ - a_, "__mul__": a_ * b_, "__rmul__": a_ * b_}[meth]
+                ctx.check("C01.5", isinstance(sig, Form) and sig == want, m, rets[0].node, f"{cls}.{meth} [raw operand]: signal = {sig!r}"[:300], f"equals {want!r}",
+                          f"with a raw (scalar/array) operand the result's signal is {sig!r}, expected {want!r}: the operand is altered (e.g. cast to the signal's dtype, which truncates a float or drops an imaginary part) before the arithmetic"[:500])
     # __call__, copy, __getitem__ class preservation
     for cls in CLASSES:
         cases = [("__call__", {"domain": d, "shift": sh, "self.noise": nz}) for d in ("w", "t") for sh in (True, False) for nz in ("none", "notnone")]
